@@ -1918,7 +1918,16 @@ class AbelianArray(BlockBase):
         _zeros = ar.get_lib_fn(backend, "zeros")
         zeros_kwargs = {}
         if hasattr(_ex_array, "dtype"):
-            zeros_kwargs["dtype"] = _ex_array.dtype
+            dtypes = {x.dtype for x in self.blocks.values()}
+            if len(dtypes) == 1:
+                (dtype,) = dtypes
+            else:
+                # blocks of mixed dtype (e.g. from real + complex): the fused
+                # blocks must be able to hold every sub-block
+                dtype = functools.reduce(
+                    ar.get_lib_fn(backend, "promote_types"), dtypes
+                )
+            zeros_kwargs["dtype"] = dtype
         if hasattr(_ex_array, "device"):
             zeros_kwargs["device"] = _ex_array.device
 
